@@ -121,7 +121,8 @@ def list_jobs(tier):
     ids += f64 if tier == "thorough" else f64[:: max(1, len(f64) // 150)]
     a1 = families.ids("A1", tier)
     ids += [f"D/{i}" for i in (a1 if tier == "thorough" else a1[::4])]
-    ids += [f"OFF/{i}" for i in (corpus.registry_ids()[::9] + families.ids("A1", "quick")[::5])]
+    a1q = families.ids("A1", "quick")
+    ids += [f"OFF/{i}" for i in (corpus.registry_ids()[::9] + sorted(set(a1q[::5] + [i for i in families.ids("A1", tier) if "/mixdt." in i])))]
     return ids
 
 
@@ -200,13 +201,21 @@ def run_job(job, tier):
         p = get(job)
     except corpus.OutOfBound as e:
         return {"job": job, "status": "out_of_bound", "reason": str(e)}
-    return pipeline.analyze(p, options(tier))
+    r = pipeline.analyze(p, options(tier))
+    if r.get("ref_narrow_float"):
+        # premise of C09: "the callable as evaluated by JAX in 64-bit mode involves only float64
+        # floating values" - this one narrows internally (e.g. attention softmax in float32)
+        r["status_under_c01"] = r.get("status")
+        r["status"] = "out_of_premise"
+        r["reason"] = "JAX's own x64 evaluation produces float32 intermediates"
+    return r
 
 
 ASSUMPTIONS = list(c01.ASSUMPTIONS) + [
     "precision-lowering casts are uninterpreted NON-identity roundings (rnd32/rnd16); inputs are arbitrary reals (not assumed float32-representable in double mode); constants at their stored values",
     "comparator 1e-10 relative inside the solver; replay at 1e-9/1e-12 against JAX x64 incl. inputs perturbed to be non-representable in float32",
     "accuracy of ONNX Runtime's double kernels themselves is outside the claim",
+    "programs whose JAX x64 evaluation itself produces float32/float16 intermediates are outside the property's premise (status out_of_premise; C01 still compares them at single-precision accuracy)",
 ]
 
 
